@@ -224,9 +224,18 @@ def run(ctx, harness, n_cases, per_case):
         return 0 if (i >= 0 and int.from_bytes(b[i + 2:i + 4], "big") >= 13) else 1
     ohc = sorted([d for c in cases if c["driver"] == "gtp5g" for d in c["datagrams"] if has_ohc_spare_bits(d)], key=crashy)[:3]
     cases = [{"driver": "gtp5g", "datagrams": [d], "corpus": True} for d in corpus + ohc] + cases
-    res, log = common.run_harness(ctx, harness, "fuzz", [{"driver": c["driver"], "datagrams": c["datagrams"]} for c in cases], timeout=3000)
+    prog = os.path.join(ctx.workdir, "fuzz-progress.json")
+    res, log = common.run_harness(ctx, harness, "fuzz", [{"driver": c["driver"], "datagrams": c["datagrams"]} for c in cases], timeout=3000,
+                                  env_extra={"VHARNESS_PROGRESS": prog})
     if res is None:
-        return {"error": "fuzz harness failed: " + log[-1200:]}
+        # the whole process went down (a panic in a goroutine nobody recovers, an exit): the datagram under way is the input
+        where = None
+        try:
+            where = json.load(open(prog))
+        except Exception:  # noqa: BLE001
+            pass
+        why = [ln for ln in log.splitlines() if ln.startswith(("panic:", "fatal error:", "goroutine ")) or "go-upf/internal" in ln][:12]
+        return {"error": "fuzz harness failed: " + log[-1200:], "died_at": where, "cases": cases, "why": why}
     return {"cases": cases, "results": res["cases"]}
 
 
@@ -235,7 +244,15 @@ def phase(ctx, info, coverage):
     n, per = (40, 250) if ctx.tier == "quick" else (2000, 500)
     r = run(ctx, info["harness"], n, per)
     if r.get("error"):
-        ctx.violation({"property": "C07", "broken": r["error"]}, no_input=True)
+        w = r.get("died_at")
+        if w and w["case"] < len(r["cases"]) and w["datagram"] < len(r["cases"][w["case"]]["datagrams"]):
+            c = r["cases"][w["case"]]
+            ctx.violation({"property": "C07", "what": "the whole process went down while datagram %d of this sequence was being served: %s" % (
+                               w["datagram"], "; ".join(r.get("why") or [])[:600]),
+                           "mode": "fuzz", "driver": c["driver"], "datagrams_after_valid_prefix": c["datagrams"][:w["datagram"] + 1][-5:],
+                           "offending_datagram": c["datagrams"][w["datagram"]]})
+        else:
+            ctx.violation({"property": "C07", "broken": r["error"]}, no_input=True)
         return
     sent = sum(o["sent"] for o in r["results"])
     coverage["fuzz_datagrams"] = sent
